@@ -122,6 +122,25 @@ class JEncoder(json.JSONEncoder):
             return json.JSONEncoder.default(self, obj)
 
 
+def _differs_from_default(default, value):
+    """True unless `value` equals the declared default: the same text, or
+    arrays of the same shape holding the same numbers (no broadcasting)"""
+    if hasattr(default, "to_str"):
+        default = default.to_str()
+    elif hasattr(default, "to_nparray"):
+        default = default.to_nparray()
+    if isinstance(default, str) or isinstance(value, str):
+        return not (isinstance(value, str) and default == value)
+    try:
+        default = np.asarray(default)
+        value = np.asarray(value)
+        if default.shape != value.shape:
+            return True
+        return bool(np.any(default != value))
+    except Exception:
+        return True
+
+
 def _build_xofields_dict(bases, data):
     if "_xofields" in data.keys():
         xofields = data["_xofields"].copy()
@@ -368,7 +387,7 @@ class HybridClass(metaclass=MetaHybridClass):
                 out[ff] = vv._to_dict()
             elif ff in defaults:
                 # Only include those values that are not default.
-                if np.any(defaults[ff] != vv):
+                if _differs_from_default(defaults[ff], vv):
                     out[ff] = vv
             elif vv is not None:
                 # no default to compare with (e.g. an array of dynamic
